@@ -59,6 +59,8 @@ def gen(rng, tier):
     if medium_windows:
         n = rng.randint(cfg.max_bound, 3 * cfg.max_bound)
     data = world.gen_trace(rng, vars_, n, p_bigint=0.06, style=('plateau' if medium_windows and rng.random() < 0.6 else None))
+    if rng.random() < 0.08:
+        common.nudge_to_thresholds(rng, ast, data)      # samples on, or a few 1e-8 beside, the constants of the formula
     times, fired = world.faulty_clock(rng, n, kinds=[k for k in ('jitter_in', 'jitter_out', 'offset', 'float_stamps')
                                                       if rng.random() < 0.4])
     orders = []
